@@ -246,7 +246,7 @@ func init() {
 				// transport is slow inside the send of its COMMIT (C16)
 				floors := map[string]int{"C14 syncs pending while the commit callback runs": 40, "C14 stale batches judged": 20}
 				if prop == "C16" {
-					floors = map[string]int{"C16 shutdowns with a held COMMIT send": 10}
+					floors = map[string]int{"C16 shutdowns with a held COMMIT send": 8, "C16 shutdowns while the commit callback waits on its context": 4}
 				}
 				f3, e3, i3 := rtPart(run, "commitsync", 48, 2000, floors)
 				fs, inc = append(fs, f3...), append(inc, i3...)
